@@ -239,7 +239,9 @@ pub fn go_args(rng: &mut Rng, stm: Color, max_plan: u128) -> String {
         rng.shuffle(&mut fields);
         for (k, v) in fields.clone() {
             if rng.chance(1, 8) {
-                parts.push(rng.pick(&["infinite", "ponder", "foo"]).to_string());
+                // words of the UCI `go` vocabulary the engine does not know (with their arguments)
+                // and plain nonsense: all of it is to be ignored
+                parts.push(rng.pick(&["infinite", "ponder", "foo", "searchmoves e2e4 e7e5", "searchmoves a1a1", "searchmoves h7h8q g1f3", "depth 3", "nodes 500", "mate 2", "movetime 40", "searchmoves"]).to_string());
             }
             parts.push(k);
             parts.push(v);
